@@ -126,6 +126,16 @@ func (e *Enc) ghostKey(structT types.Type, name string) string {
 		s, goT, _, _ := e.parseType(g.Type, e.w.typesPkg(g.Pkg))
 		e.regKey(key, "(Array Int "+s+")", goT)
 	}
+	if _, isIface := structT.Underlying().(*types.Interface); isIface {
+		// ghost state owned by an interface value: interface values are abstract
+		// identities that are not ordered against the allocation watermark, so
+		// call frames over these keys hold for every identity (a value created
+		// inside the callee has no observable pre-state).
+		if e.ifaceKey == nil {
+			e.ifaceKey = map[string]bool{}
+		}
+		e.ifaceKey[key] = true
+	}
 	return key
 }
 
@@ -245,7 +255,13 @@ func (e *Enc) evalSpec(s *Spec, env *SpecEnv) SV {
 			seen := map[absCand]bool{}
 			for _, ib := range findIndexBases(s.A, v, nil) {
 				nf := len(e.fatal)
-				bv := e.evalSpec(ib.base, probe)
+				pe := probe
+				if ib.inOld && probe.old != nil {
+					po := *probe
+					po.heap = probe.old
+					pe = &po
+				}
+				bv := e.evalSpec(ib.base, pe)
 				if len(e.fatal) > nf || bv.S != sliceSort || bv.a != nil || strings.Contains(bv.T, "q!probe") {
 					e.fatal = e.fatal[:nf]
 					continue
@@ -255,6 +271,32 @@ func (e *Enc) evalSpec(s *Spec, env *SpecEnv) SV {
 					seen[ac] = true
 					cands[v] = append(cands[v], ac)
 				}
+			}
+		}
+		// A slice indexed at two different constant distances (a[k] and a[k+1]) is
+		// not used as a trigger base when another base is available: an instance
+		// triggered by a[k] would mention a[k+1] and trigger itself again.
+		for _, v := range s.Vars {
+			nOff := map[string]int{}
+			for _, ac := range cands[v] {
+				nOff[ac.off]++
+			}
+			var keep []absCand
+			for _, ac := range cands[v] {
+				if nOff[ac.off] == 1 {
+					keep = append(keep, ac)
+				}
+			}
+			if len(keep) > 0 {
+				cands[v] = keep
+			}
+		}
+		// A bound variable that is also a direct argument of a declared spec
+		// function (rec / uf) gets one more, relative rendering: there the
+		// application f(..k..) is the trigger.
+		for _, v := range s.Vars {
+			if len(cands[v]) > 0 && e.varIsFuncArg(s.A, v) {
+				cands[v] = append(cands[v], absCand{"", 0})
 			}
 		}
 		multi := ""
@@ -274,7 +316,7 @@ func (e *Enc) evalSpec(s *Spec, env *SpecEnv) SV {
 			for _, v := range s.Vars {
 				n := fmt.Sprintf("q%d!%s", e.qn, v)
 				bs = append(bs, "("+n+" Int)")
-				if ac, ok := choice[v]; ok {
+				if ac, ok := choice[v]; ok && ac.off != "" {
 					sv := intSV(fmt.Sprintf("(- %s %s)", n, ac.off))
 					if ac.c != 0 {
 						sv = intSV(fmt.Sprintf("(- (- %s %s) %s)", n, ac.off, smtIntI(ac.c)))
@@ -294,13 +336,27 @@ func (e *Enc) evalSpec(s *Spec, env *SpecEnv) SV {
 				choice[v] = cands[v][0]
 			}
 		}
-		if multi == "" || multi == "-" || s.Op != "forall" {
+		if multi == "" || multi == "-" {
 			return boolSV(render(choice))
+		}
+		if s.Op != "forall" {
+			// an existential keeps its single absolute rendering unless a relative
+			// (function-argument) rendering exists
+			last := cands[multi][len(cands[multi])-1]
+			if last.off != "" {
+				return boolSV(render(choice))
+			}
+			cands[multi] = []absCand{cands[multi][0], last}
 		}
 		var parts []string
 		for _, ac := range cands[multi] {
 			choice[multi] = ac
 			parts = append(parts, render(choice))
+		}
+		if s.Op != "forall" {
+			// equivalent renderings of an existential: their disjunction (in a
+			// negated position each disjunct becomes a separately triggered forall)
+			return boolSV("(or " + strings.Join(parts, " ") + ")")
 		}
 		return boolSV(and(parts...))
 	case SField:
@@ -361,6 +417,14 @@ func (e *Enc) indexSV(a, i SV, env *SpecEnv, s *Spec) SV {
 			if env.noHeap {
 				e.fatalf("spec %s: heap access in a heap-free context", s)
 				return intSV("0")
+			}
+			if e.isByRef(u.Elem()) {
+				// the element object itself (pointer semantics): a[i].f reads field f of the object
+				idx := fmt.Sprintf("(+ (soff %s) %s)", a.T, i.T)
+				if i.absBase != "" && i.absOff == "(soff "+a.T+")" {
+					idx = i.absBase
+				}
+				return SV{T: elemObj("(sref "+a.T+")", idx), S: "Int", GoT: types.NewPointer(u.Elem())}
 			}
 			key := e.elemKey(u.Elem())
 			if i.absBase != "" && i.absOff == "(soff "+a.T+")" {
@@ -452,7 +516,11 @@ func (e *Enc) evalField(s *Spec, env *SpecEnv) SV {
 			return intSV("0")
 		}
 		sort, goT, elem, ks, _ := e.ghostInfo(t, name)
-		return SV{T: fmt.Sprintf("(select %s %s)", e.hget(env.heap, key), base.T), S: sort, GoT: goT, Elem: elem, KeyS: ks}
+		gterm := fmt.Sprintf("(select %s %s)", e.hget(env.heap, key), base.T)
+		if goT != nil && !env.noHeap {
+			e.allocFact(goT, gterm, env.heap)
+		}
+		return SV{T: gterm, S: sort, GoT: goT, Elem: elem, KeyS: ks}
 	}
 	st, ok := t.Underlying().(*types.Struct)
 	if !ok {
@@ -472,6 +540,7 @@ func (e *Enc) evalField(s *Spec, env *SpecEnv) SV {
 			key := e.fieldKey(t, st, i)
 			term := fmt.Sprintf("(select %s %s)", e.hget(env.heap, key), base.T)
 			e.typingFact(f.Type(), term)
+			e.allocFact(f.Type(), term, env.heap)
 			return SV{T: term, S: e.d.sortOf(f.Type()), GoT: f.Type()}
 		}
 		si := e.d.structInfoOf(t)
@@ -653,6 +722,10 @@ func (e *Enc) evalCall(s *Spec, env *SpecEnv) SV {
 				e.fatalf("spec %s: unchanged() needs slices", s)
 				continue
 			}
+			if e.isByRef(sl.Elem()) {
+				parts = append(parts, e.byrefUnchanged(env.heap, env.old, sl.Elem(), a.T))
+				continue
+			}
 			key := e.elemKey(sl.Elem())
 			parts = append(parts, fmt.Sprintf("(= (select %s (sref %s)) (select %s (sref %s)))", e.hget(env.heap, key), a.T, e.hget(env.old, key), a.T))
 		}
@@ -669,6 +742,18 @@ func (e *Enc) evalCall(s *Spec, env *SpecEnv) SV {
 		}
 		key := e.elemKey(sl.Elem())
 		return SV{T: fmt.Sprintf("(select %s (sref %s))", e.hget(env.heap, key), a.T), S: "(Array Int " + e.d.sortOf(sl.Elem()) + ")", Elem: sl.Elem()}
+	case "bytesEq": // bytesEq(x, y): byte slices x and y have equal contents (what bytes.Equal returns)
+		if !need(2) {
+			return boolSV("true")
+		}
+		e.bytesEqDecl()
+		return boolSV(fmt.Sprintf("(bytes_eq %s %s %s)", e.hget(env.heap, e.elemKey(types.Typ[types.Uint8])), arg(0).T, arg(1).T))
+	case "strlt": // string ordering (uninterpreted strict order, same symbol the code's < on strings uses)
+		if !need(2) {
+			return boolSV("true")
+		}
+		e.declStrlt()
+		return boolSV(fmt.Sprintf("(strlt %s %s)", arg(0).T, arg(1).T))
 	case "bit":
 		if !need(2) {
 			return boolSV("true")
@@ -805,6 +890,9 @@ func (e *Enc) declareRec(sf *SpecFunc) {
 	// name(args) only where a name(args) term already exists.  One unfolding
 	// per existing term, no matching loop.
 	e.d.lines = append(e.d.lines, fmt.Sprintf("(declare-fun %s (%s) %s)", sf.Name, strings.Join(sorts, " "), rs))
+	if sf.Uninterp {
+		return
+	}
 	e.d.lines = append(e.d.lines, fmt.Sprintf("(declare-fun %s_L (%s) %s)", sf.Name, strings.Join(sorts, " "), rs))
 	env.inRec = sf.Name
 	body := e.evalSpec(sf.Body, env)
@@ -814,9 +902,45 @@ func (e *Enc) declareRec(sf *SpecFunc) {
 	e.recAxioms = append(e.recAxioms, fmt.Sprintf("(assert (forall (%s) (! (= %s %s) :pattern (%s))))", strings.Join(binders, " "), appL, app, app))
 }
 
+// varIsFuncArg: v (or v±c) is a direct argument of a declared rec/uf spec
+// function somewhere in s (not under a binder that shadows v).
+func (e *Enc) varIsFuncArg(s *Spec, v string) bool {
+	if s == nil {
+		return false
+	}
+	switch s.Kind {
+	case SQuant:
+		for _, x := range s.Vars {
+			if x == v {
+				return false
+			}
+		}
+	case SCall:
+		if sf := e.w.cs.Specs[s.Name]; sf != nil && (sf.Rec || sf.Uninterp) {
+			for _, a := range s.Args {
+				if n, _, ok := varPlusConst(a); ok && n == v {
+					return true
+				}
+			}
+		}
+	}
+	for _, c := range []*Spec{s.A, s.B, s.C} {
+		if e.varIsFuncArg(c, v) {
+			return true
+		}
+	}
+	for _, c := range s.Args {
+		if e.varIsFuncArg(c, v) {
+			return true
+		}
+	}
+	return false
+}
+
 type indexBase struct {
-	base *Spec
-	c    int64
+	base  *Spec
+	c     int64
+	inOld bool // the index expression occurs inside old(...)
 }
 
 // varPlusConst recognises `v`, `v + c` and `v - c`.
@@ -839,6 +963,10 @@ func varPlusConst(s *Spec) (string, int64, bool) {
 
 // findIndexBases collects the base expressions of every a[v] / a[v+c] in s.
 func findIndexBases(s *Spec, v string, acc []indexBase) []indexBase {
+	return findIndexBasesIn(s, v, acc, false)
+}
+
+func findIndexBasesIn(s *Spec, v string, acc []indexBase, inOld bool) []indexBase {
 	if s == nil {
 		return acc
 	}
@@ -849,17 +977,21 @@ func findIndexBases(s *Spec, v string, acc []indexBase) []indexBase {
 				return acc
 			}
 		}
-		return findIndexBases(s.A, v, acc)
+		return findIndexBasesIn(s.A, v, acc, inOld)
 	case SIndex:
 		if n, c, ok := varPlusConst(s.B); ok && n == v {
-			acc = append(acc, indexBase{s.A, c})
+			acc = append(acc, indexBase{s.A, c, inOld})
+		}
+	case SCall:
+		if s.Name == "old" {
+			inOld = true
 		}
 	}
 	for _, c := range []*Spec{s.A, s.B, s.C} {
-		acc = findIndexBases(c, v, acc)
+		acc = findIndexBasesIn(c, v, acc, inOld)
 	}
 	for _, c := range s.Args {
-		acc = findIndexBases(c, v, acc)
+		acc = findIndexBasesIn(c, v, acc, inOld)
 	}
 	return acc
 }
